@@ -15,7 +15,7 @@ RULE = ("Hypothesis-generated nested 3D plotfiles (non-zero origin incl. a quart
         "finest selected level covering them and lie >= 1 cell inside their box, x field selection (name, index, "
         "ascending name / index list; permuted and negative index lists under the either-rule: refused or right) x reader level limit; plus points outside the domain (a hair 1e-9 L / 1% / 50 L below or above, one "
         "coordinate at a time); in half the cases one selection object answers all points of the case. Interior: every selected field's value within 1e-8*max|that field in the box| of the stored cell; "
-        "outside: an exception. Non-trivial = origin != 0 or anisotropic or a point on level >= 1.")
+        "One plotfile in six has boxes 24-32 cells long, with several queries of one reader in the same box. outside: an exception. Non-trivial = origin != 0 or anisotropic or a point on level >= 1.")
 ASSUMPTIONS = ["cubic-spline evaluation at an integer node reproduces the node value to rounding (tolerance 1e-8 relative to the box)"]
 
 
@@ -23,6 +23,14 @@ ASSUMPTIONS = ["cubic-spline evaluation at an integer node reproduces the node v
 def cases(draw, tier="quick"):
     spec = draw(plotgen.plot_specs(thin=True, level_prefix=True, ndims=3, max_cells=2500 if tier == "quick" else 8000, min_fields=1, max_fields=4,
                                    payload_kinds=("random",)))
+    if draw(st.integers(0, 2 ** 16)) % 6 == 0:
+        # boxes 24 to 32 cells long in one direction (one block wide in the others): local indices beyond any small
+        # window, several queries landing in the same box
+        long_dim = draw(st.integers(0, 2))
+        nb0 = [1, 1, 1]
+        nb0[long_dim] = draw(st.sampled_from([3, 4]))
+        spec["mesh"].update(bf=8, m=4, nb0=nb0, chop_seed=0, thin0=0, no_unit=False)
+        spec["long_boxes"] = True
     nf = len(spec["fields"])
     nlev = spec["mesh"]["nlev"]
     # "wherever the domain is placed in space": a quarter of the plotfiles sit far from the origin (map-like coordinates,
@@ -102,6 +110,8 @@ def check_case(case, ctx):
         ctx.label("refinement-ratio-4")
     labs = plot.labels()
     ctx.label(*labs)
+    if case["spec"].get("long_boxes"):
+        ctx.label("boxes-24-to-32-cells-long")
     limit = case["limit"]
     L = plot.nlev - 1 if limit is None else limit
     if ratio4:
